@@ -617,7 +617,7 @@ def run_repr_stream(ctx, G, Gf):
             for label, f, which in seq:
                 obj, impl = call_variant(lambda: f(), (), {})
                 ctx.bump("sequence-calls")
-                el, er, al, ar = (exp_l, exp_r, amb_lo, amb_hi) if which == 1 else (e2l, e2r, a2l, a2r)
+                el, er, al, ar = (exp_l, exp_r, amb_lo0, amb_hi0) if which == 1 else (e2l, e2r, a2l, a2r)
                 if impl[0] == "err":
                     ctx.fail({"call": label, "symptom": "raises:" + impl[1], "stream": "sequence"}, dict(cj, w2=w2), f"{label} raises {impl[1]}")
                     continue
